@@ -348,7 +348,7 @@ def move_facts(eng, st, binding, pre):
                             (Concat(*[Tok.text(Q[i0 + j]) for j in range(k)]) if k > 1 else Tok.text(Q[i0]))))
             for j in range(k):
                 eng.touch(st, i0 + j)
-        for k in (1, 2, 3):
+        for k in (1, 2, 3, 4, 5):
             st.fact(Implies(And(0 <= i0, i1 == i0 + k, i1 <= n), JT(sl(Q, i0, i1)) ==
                             (Concat(*[Tok.text(Q[i0 + j]) for j in range(k)]) if k > 1 else Tok.text(Q[i0]))))
         trail = list(st.ghost.get('trail:' + ref, []))
